@@ -486,6 +486,13 @@ func (c *Ctx) plainCodecRules(r *Report, prefix string) {
 	w.inclusion(r, prefix+"w-subset-r", w.enc, w.dec, "the encoder", "the decoder", "a value written there does not come back unchanged")
 	w.unresolvedRule(r, prefix+"resolved", true, true)
 	w.coverageRule(r, prefix+"coverage")
+	// the domain is stated in wire terms (attribute types < 2^15, 16-bit counts and group numbers, ...): a field
+	// narrower than its wire slot cannot hold the domain's values - the encoder emits every bit of the slot from the field
+	r.Rule(prefix+"w-equals-spec", "encoder layout = RFC layout for every field (offset, width, byte order, mask/shift) and octet string: each field carries the full width of its wire slot", 60)
+	w.specCompare(r, prefix+"w-equals-spec", "encode", w.enc)
+	// ... and every length slot carries the final length at the slot's full width (a length computed in a narrower
+	// type wraps for the largest messages of the domain)
+	w.lengthSlotRule(r, prefix+"length-slots")
 	// bijections
 	c.bijectionRule(r, prefix+"dispatch.ike", c.Method("message", "IKEPayloadContainer", "Decode"), "message", "IKEPayload", "Type", 16)
 	c.bijectionRule(r, prefix+"dispatch.eap", c.Method("eap", "EAP", "Unmarshal"), "eap", "EapTypeData", "Type", 5)
